@@ -7,7 +7,7 @@
                     math.Mod, int64(float64)) and the same repeated-addition loop; THIS one is run side by side with the Go code.
    C07_float_layer_exact ties the two on the property's quantifier; C07_float_layer_refuted shows where the tie ends (x + dx > 2^53). *)
 From Coq Require Import ZArith String List Lia.
-From SID Require Import Base Str Ids Shift ShiftF DC07.
+From SID Require Import Base Str Ids Wire Shift ShiftF DC07.
 Import ListNotations.
 Open Scope Z_scope.
 
@@ -80,6 +80,31 @@ Theorem C07_law_checker_sound : forall i a1 a2 a3 b1 b2 b3 o, valid i -> check_s
        print_eid (shift_spec i (a1 + b1) (a2 + b2) (a3 + b3)); print_eid i; print_eid i].
 Proof. exact check_shift_laws_sound. Qed.
 Print Assumptions C07_law_checker_sound.
+
+(* (8) histories of exported calls: a case of the history entries carries, after the arguments of the plain entry, a prelude p of operations
+   (SetX / SetY / SetZ / SetZoom / ResetExtendedSpatialID) that the caller performed on ITS OWN parse (object.NewExtendedSpatialID) of the
+   same ID string immediately before the call.  The expected string and the verdict do not depend on p: they are those of the plain
+   call on (id, dx, dy, dv) — an implementation whose answer moves with the caller's private object fails check_shift on that case. *)
+Theorem C07_history_independent : forall id dx dy dv p obs, prelude_ok p = true ->
+  d_shift_hist [VS id; VZ dx; VZ dy; VZ dv; p] obs = d_shift [VS id; VZ dx; VZ dy; VZ dv] obs.
+Proof. exact shift_history_independent. Qed.
+Print Assumptions C07_history_independent.
+Theorem C07_laws_history_independent : forall id a1 a2 a3 b1 b2 b3 p obs, prelude_ok p = true ->
+  d_shift_laws_hist [VS id; VZ a1; VZ a2; VZ a3; VZ b1; VZ b2; VZ b3; p] obs =
+  d_shift_laws [VS id; VZ a1; VZ a2; VZ a3; VZ b1; VZ b2; VZ b3] obs.
+Proof. exact shift_laws_history_independent. Qed.
+Print Assumptions C07_laws_history_independent.
+
+(* non-vacuity of (8): a prelude of every operation is accepted; after it, the seeded answer "20/0/0/20/1000" to a zero shift of
+   "20/1048575/3/20/-7" is a property failure, the identity is a pass *)
+Example C07_nonvacuous_history :
+  let p := VL [VL [VS "SetX"; VZ 0]; VL [VS "SetY"; VZ 0]; VL [VS "SetZ"; VZ 1000]; VL [VS "SetZoom"; VZ 3; VZ 4];
+               VL [VS "ResetExtendedSpatialID"; VS "1/0/0/1/0"]]%string in
+  prelude_ok p = true /\
+  v_prop (d_shift_hist [VS "20/1048575/3/20/-7"; VZ 0; VZ 0; VZ 0; p] (VS "20/0/0/20/1000")) = false /\
+  v_prop (d_shift_hist [VS "20/1048575/3/20/-7"; VZ 0; VZ 0; VZ 0; p] (VS "20/1048575/3/20/-7")) = true /\
+  v_corr (d_shift_hist [VS "20/1048575/3/20/-7"; VZ 0; VZ 0; VZ 0; p] (VS "20/1048575/3/20/-7")) = true.
+Proof. vm_compute. repeat split; reflexivity. Qed.
 
 (* non-vacuity: a concrete valid ID at the grid edge wraps (both models), a multi-lap negative shift goes through the loop,
    compose / inverse hypotheses are satisfiable at the int64 boundary *)
